@@ -579,6 +579,15 @@ Section Progress.
            | Hx : _ -> ?g |- ?g => apply Hx; try congruence
            end.
 
+  Ltac prep s :=
+    destruct (connected (pr s)) eqn:Ec; destruct (ptyp (pa s)) eqn:Et;
+    repeat match goal with
+           | Hx : (?a = ?a -> _) |- _ => specialize (Hx eq_refl)
+           | Hx : ((?a = ?b -> False) -> _) |- _ => first [ specialize (Hx ltac:(discriminate)) | clear Hx ]
+           | Hx : (true = false -> _) |- _ => clear Hx
+           | Hx : (false = true -> _) |- _ => clear Hx
+           | Hx : _ /\ _ |- _ => destruct Hx
+           end.
   (* HttpParser.feed_data (payload branch) inside data_received *)
   Lemma parser_feed_F f s data :
     W s -> (rexn (re s) = None -> Fb s) ->
@@ -613,7 +622,7 @@ Section Progress.
         intro Hsh. destruct (N3 Hsh) as (N4 & _). apply N4; reflexivity. }
       unfold Fb, Ph, Pg, Pt, nonempty, shape in *. rewrite ?U1, ?U2, ?U3. cbn. rewrite ?T7, ?T8, ?T9, ?T10, ?T12.
       destruct Hf as (F1 & F2 & F3 & F4 & F5 & F6 & F7). destruct (F3 Ea Ep) as (F31 & F32).
-      fin2.
+      clear F3 Ef Q1 T1 T2 T4 T6 T13 T14 U4 Hw Hw1 En. rewrite Ea, Ep in *. prep s; fin2.
     - (* HAS_PENDING_INPUT *)
       match goal with |- context [pr_set H s1 ?g] => destruct (pr_set_proj s1 g) as (U1 & U2 & U3 & U4); set (s' := pr_set H s1 g) in * end. clearbody s'.
       split; [unfold W in *; rewrite U3; exact Hw1|]. split; [|split; [rewrite U3, T13; auto|rewrite U1; cbn; exact T8]].
@@ -624,7 +633,7 @@ Section Progress.
       { intro Ht. destruct (payload_feed_nc _ _ _ _ _ Ht Ef) as (N1 & N2 & N3). split; [apply N2; intros x Y; discriminate Y|].
         intro Hsh. destruct (N3 Hsh) as (_ & N5). apply N5; reflexivity. }
       unfold Fb, Ph, Pg, Pt, nonempty, shape in *. rewrite ?U1, ?U2, ?U3. cbn. rewrite ?T7, ?T8, ?T9, ?T10, ?T12.
-      fin2.
+      clear F3 Ef Q1 T1 T2 T4 T6 T13 T14 U4 Hw Hw1 En RP RP1 Hq. rewrite Ea, Ep in *. prep s; fin2.
     - (* COMPLETE *)
       match goal with |- context [pr_set H s1 ?g] => destruct (pr_set_proj s1 g) as (U1 & U2 & U3 & U4); set (s' := pr_set H s1 g) in * end. clearbody s'.
       split; [unfold W in *; rewrite U3; exact Hw1|]. split; [|split; [rewrite U3, T13; auto|rewrite U1; cbn; exact T8]].
